@@ -186,13 +186,13 @@ func TestVerifC11Cluster(t *testing.T) {
 						continue
 					}
 					if err := pilosa.VerifFragForce(c[idOf[o]].Server.Holder(), index, fr.Field, fr.View, fr.Shard, fr.initial[k]); err != nil {
-						r.Fail("cluster:setup-error", id, err.Error(), cs)
+						r.FailOrUndecided("cluster:setup-error", id, err.Error(), cs)
 						return
 					}
 				}
 				if fr.nonIdx >= 0 {
 					if err := pilosa.VerifFragForce(c[fr.nonIdx].Server.Holder(), index, fr.Field, fr.View, fr.Shard, fr.nonOwner); err != nil {
-						r.Fail("cluster:setup-error", id, err.Error(), cs)
+						r.FailOrUndecided("cluster:setup-error", id, err.Error(), cs)
 						return
 					}
 				}
@@ -269,7 +269,7 @@ func TestVerifC11Cluster(t *testing.T) {
 			cs.Order = rng.Perm(cfg.n)
 			for _, k := range cs.Order {
 				if err := c[k].Server.SyncData(); err != nil {
-					r.Fail("cluster:pass-error:divergent="+strings.Join(divs, "+"), id, fmt.Sprintf("SyncData on node %d: %v", k, err), cs)
+					r.FailOrUndecided("cluster:pass-error:divergent="+strings.Join(divs, "+"), id, fmt.Sprintf("SyncData on node %d: %v", k, err), cs)
 					return
 				}
 			}
@@ -345,7 +345,7 @@ func TestVerifC11Cluster(t *testing.T) {
 						if !fr.present[k] {
 							who = "fragment-absent"
 						}
-						r.Fail(fmt.Sprintf("cluster:not-majority:%s-view:%s:replica-needed-%s", vc, who, need), id,
+						r.FailOrUndecided(fmt.Sprintf("cluster:not-majority:%s-view:%s:replica-needed-%s", vc, who, need), id,
 							fmt.Sprintf("field %s view %s shard %d owner %s holds %v after all passes; majority of initial contents is %v (%s)", fr.Field, fr.View, fr.Shard, o, c11cFmt(got), c11cFmt(want), vk.DiffU64(got, want)), cs)
 						return
 					}
@@ -354,7 +354,7 @@ func TestVerifC11Cluster(t *testing.T) {
 				for k := 1; k < len(sums); k++ {
 					r.Eval(1)
 					if sums[k] != sums[0] {
-						r.Fail("cluster:checksums-differ:"+vc+"-view", id, fmt.Sprintf("field %s view %s shard %d: owners %s and %s report different block checksums after the passes: %s vs %s", fr.Field, fr.View, fr.Shard, fr.Owners[0], fr.Owners[k], sums[0], sums[k]), cs)
+						r.FailOrUndecided("cluster:checksums-differ:"+vc+"-view", id, fmt.Sprintf("field %s view %s shard %d: owners %s and %s report different block checksums after the passes: %s vs %s", fr.Field, fr.View, fr.Shard, fr.Owners[0], fr.Owners[k], sums[0], sums[k]), cs)
 						return
 					}
 				}
@@ -362,7 +362,7 @@ func TestVerifC11Cluster(t *testing.T) {
 					r.Eval(1)
 					got, _ := pilosa.VerifFragPositions(c[fr.nonIdx].Server.Holder(), index, fr.Field, fr.View, fr.Shard)
 					if !vk.EqualU64(got, fr.nonOwner) {
-						r.Fail("cluster:non-owner-touched:"+vc+"-view", id, fmt.Sprintf("field %s view %s shard %d: node %d is not an owner, held %v, now %v", fr.Field, fr.View, fr.Shard, fr.nonIdx, c11cFmt(fr.nonOwner), c11cFmt(got)), cs)
+						r.FailOrUndecided("cluster:non-owner-touched:"+vc+"-view", id, fmt.Sprintf("field %s view %s shard %d: node %d is not an owner, held %v, now %v", fr.Field, fr.View, fr.Shard, fr.nonIdx, c11cFmt(fr.nonOwner), c11cFmt(got)), cs)
 						return
 					}
 					classes["cluster:non-owner-untouched"] = true
